@@ -547,6 +547,45 @@ func checkTree(c *h.Ctx, docText string, specs []anySpec, full bool) {
 				}
 			}
 		}
+		// lax mode: an array accessor after the descent wraps every scalar (and
+		// object) node it meets - node by node
+		if lax && listings != nil && !hasMultiMemberObject(doc) {
+			for si, spec := range specs {
+				if si%2 != 0 {
+					continue
+				}
+				for _, acc := range []string{"[0]", "[last]", "[*]", "[0 to last]", "[0,0]", ".a", "[1]"} {
+					p, one := cachedPath("$"+spec.text+acc), cachedPath("$"+acc)
+					if p == nil || one == nil {
+						continue
+					}
+					o := h.Call("query", p, h.Decode(docText, c15UseNum), h.Opts{})
+					c.Eval(1)
+					if o.Class != h.OK {
+						continue
+					}
+					var want []any
+					ok := true
+					for _, x := range selectLevels(doc, listings[0], spec.first, spec.last, spec.leaves) {
+						ox := h.Call("query", one, x, h.Opts{})
+						c.Eval(1)
+						if ox.Class != h.OK {
+							ok = false
+							break
+						}
+						want = append(want, ox.Items...)
+					}
+					if !ok {
+						continue
+					}
+					if h.CanonList(o.Items) != h.CanonList(want) {
+						c.Violate("anylevel", h.F("mode", "lax", "kind", "array-accessor-after"), fmt.Sprintf("Query($%s%s) on %s = %s; node by node: %s", spec.text, acc, docText, o.Summary(), h.CanonList(want)), h.Case{Kind: "any", Path: "$" + spec.text + acc, Doc: docText, UseNum: c15UseNum})
+					} else {
+						c.Held("anylevel")
+					}
+				}
+			}
+		}
 		if lax && listings != nil && !hasMultiMemberObject(doc) {
 			for si, spec := range specs {
 				if si%3 != 2 {
@@ -864,6 +903,51 @@ func replayC15(c *h.Ctx, cs h.Case) {
 }
 
 func runC15(c *h.Ctx) {
+	// level bounds far beyond any document: rejected by the parser, or - if
+	// accepted - levels like any other (nothing lies that deep; as an upper
+	// bound they do not limit anything)
+	{
+		k := 0
+		for _, lv := range []string{"2147483647", "2147483648", "4294967296", "9999999999", "0x100000000", "99999999999999999999", "1_000_000_000_000", "2147483646"} {
+			for _, d := range []string{`{"a":{"b":[1,2]},"c":3}`, `[1,[2,[3]]]`, `5`} {
+				for _, lax := range []bool{true, false} {
+					k++
+					if !c.Mine(k) {
+						continue
+					}
+					mode := map[bool]string{true: "", false: "strict "}[lax]
+					for _, f := range [][2]string{{"$.**{%s}", ""}, {"$.**{%s to last}", ""}, {"$.**{0 to %s}", "$.**{0 to last}"}, {"$.**{1 to %s}", "$.**{1 to last}"}, {"$.**{%s to %s}", ""}} {
+						ptxt := mode + strings.ReplaceAll(f[0], "%s", lv)
+						p, err, pan := h.ParseSafe(ptxt)
+						if pan != "" {
+							continue // C04's business
+						}
+						if err != nil {
+							c.Count("level.rejected-by-parser", 1)
+							c.Held("anylevel")
+							continue
+						}
+						o := h.Call("query", p, h.Decode(d, false), h.Opts{})
+						oe := h.Call("exists", p, h.Decode(d, false), h.Opts{})
+						c.Eval(2)
+						want := ""
+						if f[1] != "" {
+							if ow := h.Call("query", cachedPath(mode+f[1]), h.Decode(d, false), h.Opts{}); ow.Class == h.OK {
+								want = h.CanonBag(ow.Items)
+							}
+						} else {
+							want = h.CanonBag(nil)
+						}
+						if o.Class != h.OK || h.CanonBag(o.Items) != want || oe.Class != h.OK || oe.Bool != (len(o.Items) > 0) {
+							c.Violate("anylevel", h.F("mode", modeName(lax), "kind", "huge-level"), fmt.Sprintf("Query(%s) on %s = %s, Exists = %s; expected the nodes %s", ptxt, d, o.Summary(), oe.Summary(), want), h.Case{Kind: "any", Path: ptxt, Doc: d})
+						} else {
+							c.Held("anylevel")
+						}
+					}
+				}
+			}
+		}
+	}
 	maxNodes := c.N(5, 6)
 	trees := gen.Trees(maxNodes, []string{"1", `"s"`, "null"}, []string{"a", "b"})
 	specs := anySpecs()
